@@ -36,6 +36,7 @@ func drawWorld17(r *rng.R, lib *library) *Case {
 		c.World.Tasks = append(c.World.Tasks, drawTask(r, models, n, true))
 	}
 	c.World.MapSeed = r.U64()
+	c.World.CopyModels = r.Chance(1, 10)
 	return c
 }
 
@@ -123,7 +124,11 @@ func Worker17(cfg Config) *evid.Stats {
 			rn.rc.m = map[uint64]*refResult{}
 		}
 		rn.remember(c)
+		rn.afterWorld(c)
 		return wr
+	}
+	if cfg.EmitOut == "" {
+		rn.buildBattery(lib)
 	}
 	// dry run: serial, counts each task's yields
 	dry := func(c *Case) []int64 {
